@@ -108,3 +108,81 @@ def pool_stores(prog, cls_list):
             if isinstance(s, ast.Assign) and any(src(t) == "self.samples" for t in s.targets):
                 out.append((f, s))
     return out
+
+
+# ---------------------------------------------------------------------------
+# positional views
+_POS_VIEW = ("unstructured_view",)
+
+
+def _is_pos_view(e):
+    """e is a call that reinterprets a structured array as plain columns in the *memory order of the array passed in*
+    (livepoint.unstructured_view / Model.unstructured_view / ndarray.view((float, n)))."""
+    if not isinstance(e, ast.Call):
+        return False
+    nm = (call_name(e) or "").split(".")[-1]
+    if nm in _POS_VIEW:
+        return True
+    if nm == "view" and isinstance(e.func, ast.Attribute) and e.args and isinstance(e.args[0], ast.Tuple):
+        return True
+    return False
+
+
+def _scalar(e):
+    if isinstance(e, ast.Constant) and isinstance(e.value, (int, float)):
+        return True
+    if isinstance(e, ast.UnaryOp) and isinstance(e.op, (ast.USub, ast.UAdd)):
+        return _scalar(e.operand)
+    if isinstance(e, ast.Attribute) and src(e) in ("np.inf", "numpy.inf", "np.pi", "numpy.pi"):
+        return True
+    return False
+
+
+def positional_view_uses(prog):
+    """[(function, node, ok, detail)]: every element-wise combination of a positional view of a structured array.
+
+    The columns of such a view follow the field order of whatever array the caller passed (a flow proposal hands the
+    model arrays in reparameterisation order), so the only order-safe partners are scalars (`x < 0`, `x ** 2`) and
+    the view itself; pairing its columns with a per-parameter array (bounds, scales, ...) silently pairs each
+    parameter with another parameter's entry whenever the caller's field order differs from the names list."""
+    out = []
+    for f in prog.all_functions:
+        views = set()
+        for s in walk_no_nested(f.node):
+            if isinstance(s, ast.Assign) and _is_pos_view(s.value):
+                for t in s.targets:
+                    if isinstance(t, ast.Name):
+                        views.add(t.id)
+        direct = [n for n in walk_no_nested(f.node) if _is_pos_view(n)]
+        if not views and not direct:
+            continue
+
+        def is_view(e):
+            if isinstance(e, ast.Name) and e.id in views:
+                return True
+            if _is_pos_view(e):
+                return True
+            if isinstance(e, ast.BinOp):
+                return is_view(e.left) or is_view(e.right)
+            if isinstance(e, ast.UnaryOp):
+                return is_view(e.operand)
+            if isinstance(e, ast.Compare):
+                return is_view(e.left) or any(is_view(c) for c in e.comparators)
+            if isinstance(e, ast.Subscript):
+                return is_view(e.value)
+            return False
+
+        for n in walk_no_nested(f.node):
+            parts = None
+            if isinstance(n, ast.BinOp):
+                parts = [n.left, n.right]
+            elif isinstance(n, ast.Compare):
+                parts = [n.left] + list(n.comparators)
+            elif isinstance(n, ast.AugAssign):
+                parts = [n.target, n.value]
+            if not parts or not any(is_view(p) for p in parts):
+                continue
+            others = [p for p in parts if not is_view(p)]
+            bad = [p for p in others if not _scalar(p)]
+            out.append((f, n, not bad, f"`{src(n)[:90]}`" + (f": columns in the caller's memory order are paired with `{src(bad[0])[:40]}`" if bad else "")))
+    return out
